@@ -39,7 +39,7 @@ Do(req) ==
 
 Init == docs = <<>> /\ hist = <<>>
 Next == /\ Len(hist) < MaxReqs
-        /\ \/ \E u \in Uris, t \in DocTexts : u \notin DOMAIN docs /\ Do(Req("open", u, t))
+        /\ \/ \E u \in Uris, t \in DocTexts : Do(Req("open", u, t))          \* also re-opening an open document
            \/ \E u \in Uris, t \in DocTexts : u \in DOMAIN docs /\ Do(Req("change", u, t))
            \/ \E u \in Uris : Do(Req("tokens", u, <<>>))
 
